@@ -1,7 +1,8 @@
 (* C04 - property theorems only: each closed by [exact], Print Assumptions beneath. *)
 From Coq Require Import List NArith.
+Import ListNotations.
 From TatsuV Require Import Base.PyStr Engine.Value Engine.Syntax Engine.Input Engine.Engine Engine.Calls
-     Engine.MemoProof Engine.SemProof.
+     Engine.MemoProof Engine.SemProof Engine.PinfoRel.
 
 (* Memoization never changes what a parse returns.  For every grammar in which no rule is marked left
    recursive, every text, regex / unicode oracle, input configuration, semantic-action oracle, and EVERY engine
@@ -42,3 +43,39 @@ Theorem C04_parseinfo_only_adds_partial : forall upper ic lineat ec act rl r p f
   end.
 Proof. exact post_body_parseinfo_only_adds. Qed.
 Print Assumptions C04_parseinfo_only_adds_partial.
+
+(* "enabling parse information only adds the parseinfo entries" - for WHOLE evaluations (every grammar, text, frame, fuel,
+   configuration and every semantic-action oracle that does not look at the reserved entries).  [RR] relates the two results:
+   both succeed, both fail (with the same cut flag) or both end in the same exception / fuel exhaustion; on success the
+   positions and cut flags are equal and the value, the cst and every named value of the final frame are equal once the
+   entries "parseinfo" / "__parseinfo__" are erased from every dict inside them ([er], [RV v1 v2 := er v1 = er v2]).
+   A relational induction through every construct (Engine/PinfoRel.v); the only place where the configurations differ is
+   with_parseinfo at the end of a rule invocation. *)
+Theorem C04_parseinfo_only_adds :
+  forall text re_at isalnum isalpha lower upper ic unsafe rules ec act lineat,
+  (forall r v1 v2, RV v1 v2 -> RAret (act r v1) (act r v2)) ->
+  forall n e f,
+  RR (peval text re_at isalnum isalpha lower upper ic unsafe rules (with_pinfo ec true) act lineat n e f)
+     (peval text re_at isalnum isalpha lower upper ic unsafe rules (with_pinfo ec false) act lineat n e f).
+Proof. exact parseinfo_only_adds. Qed.
+Print Assumptions C04_parseinfo_only_adds.
+
+(* the same for the engine as it runs - memo cache of any capacity, pruning at cuts, guards - on grammars without left
+   recursion (through C04_memo_transparent) *)
+Theorem C04_parseinfo_only_adds_engine :
+  forall text re_at isalnum isalpha lower upper ic unsafe rules ec act lineat,
+  (forall r v1 v2, RV v1 v2 -> RAret (act r v1) (act r v2)) ->
+  (forall r rl, get_rule rules r = Some rl -> r_lrec rl = false) ->
+  forall n e f,
+  peval text re_at isalnum isalpha lower upper ic unsafe rules (with_pinfo ec true) act lineat n e f <> Fatal OOF ->
+  RR (fst (feval text re_at isalnum isalpha lower upper ic unsafe rules (with_pinfo ec true) act lineat n e f gstate0))
+     (fst (feval text re_at isalnum isalpha lower upper ic unsafe rules (with_pinfo ec false) act lineat n e f gstate0)).
+Proof. exact parseinfo_only_adds_engine. Qed.
+Print Assumptions C04_parseinfo_only_adds_engine.
+
+(* the hypothesis on actions is satisfiable: no semantics at all, and a tagging action *)
+Example C04_blind_actions_exist :
+  (forall (r : nat) v1 v2, RV v1 v2 -> RAret ((fun (_ : nat) (_ : value) => ANone) r v1) ((fun (_ : nat) (_ : value) => ANone) r v2)) /\
+  (forall (r : nat) v1 v2, RV v1 v2 ->
+     RAret ((fun (r : nat) (v : value) => ARet (VTag (N.of_nat r) [v])) r v1) ((fun (r : nat) (v : value) => ARet (VTag (N.of_nat r) [v])) r v2)).
+Proof. split; [exact no_semantics_is_blind|exact tagging_is_blind]. Qed.
